@@ -207,6 +207,9 @@ Q_SHAPES = {
     # they SHARE those arcs with the circle
     "halfc8": ("arcs", "c8", 6, 4),
     "halfc16": ("arcs", "c16", 3, 8),
+    # a boundary made of ONE closed cubic segment (teardrop with its corner at the start point)
+    "tear": ("ctrl", [[(0.0, 0.0), (2.0, 2.0), (-2.0, 2.0), (0.0, 0.0)]]),
+    "tearg": ("ctrl", [[(1.25, 0.5), (4.0, 1.5), (0.5, 3.75), (1.25, 0.5)]]),
     # mixed degrees in generic position (nothing on an axis, nothing symmetric about the origin)
     "mixg": (
         "ctrl",
